@@ -17,18 +17,27 @@ for sid in ids:
     d = f'/verif/seeded/{sid}'
     meta = json.load(open(f'{d}/meta.json'))
     checks = sorted(meta.get('checks_run') or [meta['property']])
-    assert subprocess.run(['git', '-C', '/repo', 'status', '--short'], capture_output=True, text=True).stdout.strip() == ''
-    subprocess.run(['git', '-C', '/repo', 'apply', f'{d}/patch.diff'], check=True)
+    scratch = os.environ.get('SEED_SCRATCH')     # SEED_SCRATCH=1: scratch worktree + VERIF_REPO, /repo is not touched
+    target = '/repo'
+    if scratch:
+        target = f'/tmp/mut/rc_{sid}'
+        subprocess.run(['git', '-C', '/repo', 'worktree', 'add', '-q', '--detach', target, 'HEAD'], check=True)
+    else:
+        assert subprocess.run(['git', '-C', '/repo', 'status', '--short'], capture_output=True, text=True).stdout.strip() == ''
+    subprocess.run(['git', '-C', target, 'apply', f'{d}/patch.diff'], check=True)
     results = {}
     try:
         for c in checks:
             p = subprocess.run(['./check', c, '--tier', 'quick', '--no-evidence'], cwd='/verif', capture_output=True,
-                               text=True, env=dict(os.environ, VERIF_SEED='0'))
+                               text=True, env=dict(os.environ, VERIF_SEED='0', VERIF_REPO=target))
             sigs = re.findall(r"signature: (\S+)", p.stdout)
             results[c] = {'exit': p.returncode, 'signatures': sigs[:6],
                           'summary': p.stdout.strip().splitlines()[-1][:200] if p.stdout.strip() else ''}
     finally:
-        subprocess.run(['git', '-C', '/repo', 'checkout', '--', '.'], check=True)
+        if scratch:
+            subprocess.run(['git', '-C', '/repo', 'worktree', 'remove', '--force', target])
+        else:
+            subprocess.run(['git', '-C', '/repo', 'checkout', '--', '.'], check=True)
     meta['checks_run'] = results
     meta['caught_by'] = sorted(c for c, r in results.items() if r['exit'] == 1)
     meta['repo_head_when_checked'] = head
